@@ -33,7 +33,7 @@ theorem delivered_only_to_registered_open (r : Reg) (p : Pkt) :
     · simp at h
     · rename_i l0 v0 b0 hs
       have hreg := select_registered r p l0 v0 b0 hs
-      obtain ⟨hc, rfl, rfl⟩ := deliver_delivered _ _ _ _ _ _ h
+      obtain ⟨hc, _, rfl, rfl⟩ := deliver_delivered _ _ _ _ _ _ _ h
       exact ⟨hreg, by simpa [Reg.isClosed] using hc⟩
   · intro h; simp [receive, h]
 
@@ -311,7 +311,7 @@ theorem mid_packet_never_crosses_sections_partial (r : Reg) (p : Pkt) (m : Bytes
   split at hd
   · simp at hd
   · rename_i l0 v0 b0 hs
-    obtain ⟨_, rfl, rfl⟩ := deliver_delivered _ _ _ _ _ _ hd
+    obtain ⟨_, _, rfl, rfl⟩ := deliver_delivered _ _ _ _ _ _ _ hd
     rcases select_cases r p _ _ _ hs with ⟨h1, rfl, _⟩ | ⟨h1, h2, rfl, _⟩ | ⟨_, h2, _, _⟩
     · exact Or.inr ⟨rfl, by rw [← stageRid_eq]; exact h1⟩
     · rw [hmid] at h2; cases h2
@@ -333,7 +333,7 @@ theorem unregistered_mid_never_reaches_other_section (r : Reg) (p : Pkt) (m : By
   split at hd
   · simp at hd
   · rename_i l0 v0 b0 hs
-    obtain ⟨_, rfl, rfl⟩ := deliver_delivered _ _ _ _ _ _ hd
+    obtain ⟨_, _, rfl, rfl⟩ := deliver_delivered _ _ _ _ _ _ _ hd
     rcases select_cases r p _ _ _ hs with ⟨h1, _, _⟩ | ⟨_, h2, _, _⟩ | ⟨_, _, _, h4⟩
     · rw [hrid] at h1; cases h1
     · obtain ⟨he, hu, hl⟩ := hm
@@ -413,7 +413,7 @@ theorem binding_only_from_routed (r : Reg) (p : Pkt) (s : Nat) (l : Lid)
   · exact Or.inl h
   · rename_i l0 v0 b0 hs
     have hb := (selection_is_priority_spec_partial r p).2.2.2.2 l0 v0 b0 hs
-    rcases afterSelect_mem _ _ _ _ _ (deliver_mem _ _ _ _ _ h) with h1 | ⟨hb1, he⟩
+    rcases afterSelect_mem _ _ _ _ _ (deliver_mem _ _ _ _ _ _ h) with h1 | ⟨hb1, he⟩
     · exact Or.inl h1
     · right
       simp at he; obtain ⟨rfl, rfl⟩ := he
@@ -439,14 +439,14 @@ theorem stream_not_split_after_extension_hit (r : Reg) (p q : Pkt) (b : Lid) (v 
       match x with
       | none => simp at hd
       | some (l0, v0, b0) =>
-        obtain ⟨hc, rfl, rfl⟩ := deliver_delivered _ _ _ _ _ _ hd
+        obtain ⟨hc, hf, rfl, rfl⟩ := deliver_delivered _ _ _ _ _ _ _ hd
         have hb0 : b0 = true := by
           have := (selection_is_priority_spec_partial r p).2.2.2.2 _ _ _ hx
           rcases hv with rfl | rfl <;> simpa using this
         subst hb0
-        show lookup p.ssrc (deliver (afterSelect r p.ssrc b true) p.ssrc b v).1.bySsrc = some b
-        have hdel : (deliver (afterSelect r p.ssrc b true) p.ssrc b v).1 = afterSelect r p.ssrc b true := by
-          unfold deliver; simp [hc]
+        show lookup p.ssrc (deliver (afterSelect r p.ssrc b true) p.ssrc b v (p.full.contains b)).1.bySsrc = some b
+        have hdel : (deliver (afterSelect r p.ssrc b true) p.ssrc b v (p.full.contains b)).1 = afterSelect r p.ssrc b true := by
+          unfold deliver; rw [hf]; simp [hc]
         rw [hdel]
         simp only [afterSelect, if_true]
         exact bindFromPacket_lookup r p.ssrc b
@@ -519,8 +519,8 @@ theorem closed_listener_removed (r : Reg) (p : Pkt) (l : Lid) (v : Via)
     match x with
     | none => simp at h
     | some (l0, v0, b0) =>
-      obtain ⟨rfl, heq⟩ := deliver_closedOut _ _ _ _ _ _ h
-      show ¬ Registered (deliver (afterSelect r p.ssrc l b0) p.ssrc l v0).1 l
+      obtain ⟨rfl, heq⟩ := deliver_closedOut _ _ _ _ _ _ _ h
+      show ¬ Registered (deliver (afterSelect r p.ssrc l b0) p.ssrc l v0 (p.full.contains l)).1 l
       rw [heq]
       rintro (⟨k, hk⟩ | ⟨k, hk⟩ | ⟨k, hk⟩ | ⟨rt, hrt, hl⟩)
       · exact (mem_dropLid _ _ _ hk).2 rfl
@@ -564,6 +564,37 @@ theorem stale_binding_never_delivers (r : Reg) (p : Pkt) (l : Lid) (hs : lookup 
   have hout : (receive r p).2 = .closedOut l .ssrc := by
     simp [receive, hsel, afterSelect, deliver, hc]
   exact ⟨hout, closed_listener_removed r p l .ssrc hout⟩
+
+/-- **full_channel_loses_only_the_packet**: a packet whose selected listener has a full (but open) channel is lost
+and NOTHING is unregistered: routes, RID and MID maps and the closed set are untouched, every binding of
+an open listener for another SSRC survives (the amortised sweep may run), and the packet's own SSRC is
+bound as it was or — when the stage binds — to the selected listener.  (`TrySendError::Full(_) => {}`;
+the next packet of that stream therefore still finds its receiver.)  `p.full` is an input of the model. -/
+theorem full_channel_loses_only_the_packet (r : Reg) (p : Pkt) (l : Lid) (v : Via)
+    (h : (receive r p).2 = .fullOut l v) :
+    r.isClosed l = false ∧ (∃ b, select r p = some (l, v, b)) ∧
+    (receive r p).1.routes = r.routes ∧ (receive r p).1.byRid = r.byRid ∧ (receive r p).1.byMid = r.byMid ∧
+    (receive r p).1.closed = r.closed ∧
+    (∀ s l', (s, l') ∈ r.bySsrc → s ≠ p.ssrc → r.isClosed l' = false → (s, l') ∈ (receive r p).1.bySsrc) ∧
+    (lookup p.ssrc (receive r p).1.bySsrc = lookup p.ssrc r.bySsrc ∨
+      lookup p.ssrc (receive r p).1.bySsrc = some l) := by
+  generalize hx : select r p = x
+  unfold receive at h ⊢
+  rw [hx] at h ⊢
+  match x with
+  | none => simp at h
+  | some (l0, v0, b0) =>
+      obtain ⟨hc, _, rfl, rfl, heq⟩ := deliver_fullOut _ _ _ _ _ _ _ h
+      simp only [heq]
+      cases b0 with
+      | false =>
+        simp only [afterSelect]
+        exact ⟨by simpa [afterSelect] using hc, ⟨false, rfl⟩, rfl, rfl, rfl, rfl, fun _ _ hm _ _ => hm, Or.inl rfl⟩
+      | true =>
+        simp only [afterSelect, if_true]
+        refine ⟨by simpa [afterSelect, Reg.isClosed] using hc, ⟨true, rfl⟩, by simp, by simp, by simp, by simp, ?_, Or.inr (bindFromPacket_lookup r p.ssrc l)⟩
+        intro s l' hm hs ho
+        exact (ssrc_sweep_only_drops_closed r p.ssrc l s l' hm hs ho).2.1
 
 end demux
 
